@@ -268,14 +268,56 @@ def thin {α : Type} (cap : Nat) (l : List α) : List α :=
 
 def margin : Rat := 1 / 1000000
 
-/-- sample points for the case `(A, B, R)`: centres of the cells of the grid through all vertex
-coordinates of operands and result, and points beside every edge midpoint -/
+/-- drop the elements of a sorted list that are within `eps` of the previously kept one -/
+def dedupTol (eps : Rat) : List Rat → List Rat
+  | [] => []
+  | a :: t =>
+    let rec go : Rat → List Rat → List Rat
+      | _, [] => []
+      | last, b :: t => if b - last ≤ eps then go last t else b :: go b t
+    a :: go a t
+
+/-- abscissa of the proper crossing of `ab` and `cd` -/
+def crossX (a b c d : P) : Option Rat :=
+  if properCross a b c d then
+    let f0 := orient c d a; let f1 := orient c d b
+    some (a.x + f0 / (f0 - f1) * (b.x - a.x))
+  else none
+
+/-- ordinate of the non-vertical segment `ab` at abscissa `x` -/
+def yAt (a b : P) (x : Rat) : Rat := a.y + (x - a.x) * (b.y - a.y) / (b.x - a.x)
+
+def allEdges (cs : Contours) : List (P × P) := cs.flatMap edges
+
+/-- one point in every cell of the vertical-slab decomposition of the arrangement of all edges:
+event abscissae = vertex abscissae of operands and result and the crossings of operand edges; in
+each slab the edges spanning its midline are ordered by their ordinate there and one point is taken
+in every gap (and one below and above all of them).  Events and ordinates closer than 1e-9 are
+merged (result vertices are rounded copies of exact crossings). -/
+def slabPoints (a b r : Contours) : List P :=
+  let inE := allEdges a ++ allEdges b
+  let allE := inE ++ allEdges r
+  let evs := dedupTol (1 / 1000000000) <| sortDedup <|
+    (allE.flatMap fun e => [e.1.x, e.2.x]) ++
+    ((allEdges a).flatMap fun e => (allEdges b).filterMap fun f => crossX e.1 e.2 f.1 f.2)
+  let rec slabs : List Rat → List P
+    | x0 :: x1 :: t =>
+      let xm := (x0 + x1) / 2
+      let ys := dedupTol (1 / 1000000000) <| sortDedup <| allE.filterMap fun (p, q) =>
+        if (decide (p.x < xm) && decide (xm < q.x)) || (decide (q.x < xm) && decide (xm < p.x)) then some (yAt p q xm) else none
+      (if ys.isEmpty then [] else (centres ys).map fun y => (⟨xm, y⟩ : P)) ++ slabs (x1 :: t)
+    | _ => []
+  slabs evs
+
+/-- sample points for the case `(A, B, R)`: one point in every cell of the slab decomposition,
+centres of the cells of the grid through all vertex coordinates of operands and result, and points
+beside every edge midpoint -/
 def samplePoints (cap : Nat) (a b r : Contours) : List P :=
   let pts := coordsOf a ++ coordsOf b ++ coordsOf r
   let xs := centres (sortDedup (pts.map (·.x)))
   let ys := centres (sortDedup (pts.map (·.y)))
   let grid := xs.flatMap fun x => ys.map fun y => (⟨x, y⟩ : P)
-  thin cap grid ++ sidePoints a ++ sidePoints b ++ thin (cap / 4) (sidePoints r)
+  thin cap (slabPoints a b r) ++ thin (cap / 2) grid ++ sidePoints a ++ sidePoints b ++ thin (cap / 4) (sidePoints r)
 
 /-- first sample point (with margin) at which the result's membership differs from the truth
 table; also returns the number of points tested -/
